@@ -45,11 +45,24 @@ def run(ctx):
         desc = dict(fam.describe(), rows=rows.tolist())
         est = fam.make()
         try:
+            # predictions asked BEFORE the model reaches its final state must leave no trace on later predictions:
+            # an earlier fit + predict, and predicts between partial_fit batches (the later batch repeats earlier rows,
+            # so it changes weights without necessarily changing the number of categories)
+            if fam.has_fit and fam.has_predict and r.random() < 0.4:
+                pre_idx = np.array([r.randrange(n) for _ in range(max(1, n // 2))])
+                fam.fit(est, rows.take(pre_idx))
+                fam.predict(est, rows.sl(0, min(n, 3)))
+                cov.hit("earlier-fit-and-predict-before-training")
             if fam.has_pfit and r.random() < 0.5:
                 k = r.randint(1, n)
-                fam.pfit(est, rows.sl(0, k))
+                fam.pfit(est, rows.sl(0, k)) if not (fam.has_fit and r.random() < 0.5) else fam.fit(est, rows.sl(0, k))
+                if fam.has_predict and r.random() < 0.7:
+                    fam.predict(est, rows.sl(0, min(k, 4)))
+                    cov.hit("predict-between-training-batches")
                 if k < n:
                     fam.pfit(est, rows.sl(k, n))
+                else:
+                    fam.pfit(est, rows.sl(0, max(1, k // 2)))      # repeat of earlier rows
             else:
                 fam.fit(est, rows)
         except Exception as e:
